@@ -164,6 +164,8 @@ func ruleC03(c *Ctx) {
 			stt := holds
 			why := ""
 			switch {
+			case fld == "" && hit.val.Op == "const":
+				stt, why = broken, fmt.Sprintf("keyword %q is written with the constant %s instead of %s: the value is lost by write-then-read", wk.kw, hit.val.Name, wk.name)
 			case fld == "":
 				stt, why = unknown, "the value written is "+short(hit.val.String())
 			case fld != wk.field:
